@@ -28,6 +28,12 @@ import random
 import typing as t
 
 
+def _mark(kind: str) -> None:
+    from simworld import threads
+
+    threads.mark(kind)
+
+
 class Blocks(BaseException):
     """A blocking read was issued that no future event can satisfy."""
 
@@ -184,6 +190,7 @@ class SimSocket(Conn):
         self._timeout = v
 
     def sendall(self, data) -> None:
+        _mark("send")
         if self.closed_by_client:
             raise OSError(9, "Bad file descriptor")
         data = self._client_wrote(bytes(data))
@@ -272,9 +279,11 @@ class SimSocket(Conn):
         return data
 
     def recv(self, n: int, flags: int = 0) -> bytes:
+        _mark("recv")
         return self._read(n, flags)
 
     def recv_into(self, buf, nbytes: int = 0, flags: int = 0) -> int:
+        _mark("recv")
         view = memoryview(buf)
         n = nbytes or len(view)
         data = self._read(n, flags)
